@@ -19,8 +19,8 @@ EXTENDS Naturals, Integers, Sequences, FiniteSets, TLC, Json, IOUtils
 Rec == ndJsonDeserialize(IOEnv.TRACE)
 N == Len(Rec)
 
-VARIABLES l, bad, owner, seqOf, act, node, puid, drained, lens, retry, excused, deviations, cur
-vars == <<l, bad, owner, seqOf, act, node, puid, drained, lens, retry, excused, deviations, cur>>
+VARIABLES l, bad, owner, seqOf, act, node, puid, ikeyOf, drained, lens, retry, excused, deviations, cur
+vars == <<l, bad, owner, seqOf, act, node, puid, ikeyOf, drained, lens, retry, excused, deviations, cur>>
 
 e == Rec[l]
 Is(k) == l <= N /\ e.ev = k
@@ -29,15 +29,15 @@ At(f, a, d) == IF a \in DOMAIN f THEN f[a] ELSE d
 Set(f, a, v) == IF a \in DOMAIN f THEN [f EXCEPT ![a] = v] ELSE f @@ (a :> v)
 ToSet(s) == {s[i] : i \in 1 .. Len(s)}
 
-TInit == /\ l = 1 /\ bad = {} /\ owner = <<>> /\ seqOf = <<>> /\ act = <<>> /\ node = <<>> /\ puid = <<>>
+TInit == /\ l = 1 /\ bad = {} /\ owner = <<>> /\ seqOf = <<>> /\ act = <<>> /\ node = <<>> /\ puid = <<>> /\ ikeyOf = <<>>
          /\ drained = {} /\ lens = <<8, 8>> /\ retry = {} /\ excused = {} /\ deviations = {} /\ cur = <<0>>
 
 Reset == /\ Is("Reset") /\ bad' = {} /\ owner' = <<>> /\ seqOf' = <<>> /\ act' = <<>> /\ node' = <<>>
-         /\ puid' = <<>> /\ drained' = {} /\ lens' = <<e.scl, e.ccl>> /\ retry' = {} /\ excused' = {} /\ deviations' = {} /\ cur' = <<e.run>> /\ l' = l + 1
+         /\ puid' = <<>> /\ ikeyOf' = <<>> /\ drained' = {} /\ lens' = <<e.scl, e.ccl>> /\ retry' = {} /\ excused' = {} /\ deviations' = {} /\ cur' = <<e.run>> /\ l' = l + 1
 
 \* Routing!NewConn
 Conn == /\ Is("Conn")
-        /\ node' = Set(node, e.uid, e.n) /\ puid' = Set(puid, e.uid, e.puid)
+        /\ node' = Set(node, e.uid, e.n) /\ puid' = Set(puid, e.uid, e.puid) /\ ikeyOf' = Set(ikeyOf, e.uid, e.ikey)
         /\ owner' = IF e.ikey # "" THEN Set(owner, e.ikey, e.uid) ELSE owner
         /\ seqOf' = IF e.ikey # "" THEN Set(seqOf, e.ikey, -1) ELSE seqOf
         /\ bad' = bad /\ l' = l + 1 /\ UNCHANGED <<act, drained, lens, retry, excused, deviations, cur>>
@@ -50,10 +50,10 @@ Issue == /\ Is("Issue")
                                  \/ At(seqOf, e.key, -1) \notin ToSet(At(act, o, <<>>)),
                                  "IdentifierSharedByLiveConnections")
          /\ owner' = Set(owner, e.key, e.uid) /\ seqOf' = Set(seqOf, e.key, e.seq)
-         /\ l' = l + 1 /\ UNCHANGED <<act, node, puid, drained, lens, retry, excused, deviations, cur>>
+         /\ l' = l + 1 /\ UNCHANGED <<act, node, puid, ikeyOf, drained, lens, retry, excused, deviations, cur>>
 
 Act == /\ Is("Act") /\ act' = Set(act, e.uid, e.seqs) /\ bad' = bad /\ l' = l + 1
-       /\ UNCHANGED <<owner, seqOf, node, puid, drained, lens, retry, excused, deviations, cur>>
+       /\ UNCHANGED <<owner, seqOf, node, puid, ikeyOf, drained, lens, retry, excused, deviations, cur>>
 
 ShortIds(n) == (IF n = 0 THEN lens[1] ELSE lens[2]) <= 4
 Linked(a, b) == At(puid, a, -1) = b \/ At(puid, b, -1) = a
@@ -69,8 +69,12 @@ TakenOver == e.zl /\ e.n = 0 /\ e.uid # -1 /\ e.suid # -1 /\ e.rrem = e.src /\ ~
 \* without checking the index.  With short IDs it can equal an ID an established connection has
 \* issued; the client's next Initial then carries it as destination ID and is handed to that
 \* connection, and the new client never gets an answer.
+\* (the ID it collides with may also be the destination ID of the connection's own first Initial,
+\* which the accepting endpoint keeps indexed for Initial and 0-RTT packets as long as the connection lives)
 RetryCollision == e.long /\ e.uid # -1 /\ e.suid # -1 /\ e.key \in retry
-                  /\ At(owner, e.key, -1) = e.uid /\ ~Linked(e.suid, e.uid)
+                  /\ (At(owner, e.key, -1) = e.uid \/ At(ikeyOf, e.uid, "") = e.key) /\ ~Linked(e.suid, e.uid)
+
+OrphanToTupleOwner == e.zl /\ e.rrem = e.src /\ At(puid, e.suid, -1) \in drained \cup {-1}
 
 \* Routing!Route
 Rx == /\ Is("Rx")
@@ -92,19 +96,23 @@ Rx == /\ Is("Rx")
               \* nothing is ever handed to a connection that is gone
               \cup Flag(e.uid # -1 => e.uid \notin drained, "RoutedToDrainedConnection")
               \* a genuine datagram only ever reaches the connection it was meant for
-              \cup Flag((e.cls = "gen" /\ e.suid # -1 /\ e.uid # -1) => (Linked(e.suid, e.uid) \/ TakenOver \/ RetryCollision),
+              \* (an endpoint with zero-length IDs has one connection per remote address: what a stale
+              \* connection of that remote - e.g. one created there by a late duplicate of an old first
+              \* Initial - sends to a peer that no longer exists can only reach the tuple's present owner)
+              \cup Flag((e.cls = "gen" /\ e.suid # -1 /\ e.uid # -1)
+                          => (Linked(e.suid, e.uid) \/ TakenOver \/ RetryCollision \/ OrphanToTupleOwner),
                         "DeliveredToForeignConnection")
               \* an intact datagram for an ID its issuer considers active reaches the issuer
               \cup Flag((e.intact /\ ~e.zl /\ activeAtOwner) => e.uid = o, "ActiveIdNotRouted")
       /\ excused' = IF RetryCollision THEN excused \cup {e.suid} ELSE excused
-      /\ l' = l + 1 /\ UNCHANGED <<owner, seqOf, act, node, puid, drained, lens, retry, cur>>
+      /\ l' = l + 1 /\ UNCHANGED <<owner, seqOf, act, node, puid, ikeyOf, drained, lens, retry, cur>>
 
 RetryCid == /\ Is("RetryCid") /\ retry' = retry \cup {e.key} /\ bad' = bad /\ l' = l + 1
-            /\ UNCHANGED <<owner, seqOf, act, node, puid, drained, lens, excused, deviations, cur>>
+            /\ UNCHANGED <<owner, seqOf, act, node, puid, ikeyOf, drained, lens, excused, deviations, cur>>
 
 \* Routing!Drain
 Drained == /\ Is("Drained") /\ drained' = drained \cup {e.uid} /\ bad' = bad /\ l' = l + 1
-           /\ UNCHANGED <<owner, seqOf, act, node, puid, lens, retry, excused, deviations, cur>>
+           /\ UNCHANGED <<owner, seqOf, act, node, puid, ikeyOf, lens, retry, excused, deviations, cur>>
 
 RECURSIVE Sum(_, _, _)
 Sum(cs, i, n) == IF i = 0 THEN 0
@@ -127,14 +135,14 @@ Quiet ==
                                 \cup Flag(ep.rtok <= live /\ ep.icids <= live /\ ep.inrem + ep.outrem <= live,
                                           "TableLargerThanConnections")
                              : k \in 1 .. Len(e.eps) }
-  /\ l' = l + 1 /\ UNCHANGED <<owner, seqOf, act, node, puid, drained, lens, retry, excused, deviations, cur>>
+  /\ l' = l + 1 /\ UNCHANGED <<owner, seqOf, act, node, puid, ikeyOf, drained, lens, retry, excused, deviations, cur>>
 
 End == /\ Is("End")
        /\ bad' = bad \cup Flag(\A i \in 1 .. Len(e.disturbed) :
                                   e.disturbed[i] \in excused \/ At(puid, e.disturbed[i], -1) \in excused,
                                "BystanderDisturbed")
        /\ l' = l + 1
-       /\ UNCHANGED <<owner, seqOf, act, node, puid, drained, lens, retry, excused, deviations, cur>>
+       /\ UNCHANGED <<owner, seqOf, act, node, puid, ikeyOf, drained, lens, retry, excused, deviations, cur>>
 
 TNext == (Reset \/ Conn \/ Issue \/ Act \/ Rx \/ RetryCid \/ Drained \/ Quiet \/ End)
          /\ (deviations' \subseteq deviations
